@@ -222,10 +222,12 @@ def build(spec, emit_step):
         """Declares further variables (one nested) in the store that p0's port B covers with a branch-level flag;
         listed before or after p0."""
         def ports_schema(self):
-            return {'L': {'w': {'_default': 4}, 'g': {'x': {'_default': 5}}}}
+            # (L2: a store below the flagged one that this wiring creates; L3: a port wired directly to a variable)
+            return {'L': {'w': {'_default': 4}, 'g': {'x': {'_default': 5}}},
+                    'L2': {'c': {'_default': 6}}, 'L3': {'_default': 8}}
 
         def next_update(self, timestep, states):
-            return {'L': {'w': 1}}
+            return {'L': {'w': 1}, 'L2': {'c': 1}}
 
     processes = {}
     topology = {}
@@ -238,7 +240,8 @@ def build(spec, emit_step):
     if spec.get('late') == 'last':
         processes['late'] = Late({'timestep': 1.0})
     if spec.get('late'):
-        topology['late'] = {'L': ('stb', 'p%d' % spec['procs'][0]['pid'])}
+        first = ('stb', 'p%d' % spec['procs'][0]['pid'])
+        topology['late'] = {'L': first, 'L2': first + ('deepn',), 'L3': first + ('lv',)}
     processes['dir'] = Director({'script': spec['script'], 'timestep': 1.0})
     processes['deepp'] = Deep({})
     topology['deepp'] = {'D': ('deep', 'blob'), 'E': ('deep',)}
@@ -279,6 +282,8 @@ def flags(spec):
         first = spec['procs'][0]
         f[('stb', 'p%d' % first['pid'], 'w')] = bool(first.get('bflag', True))
         f[('stb', 'p%d' % first['pid'], 'g', 'x')] = bool(first.get('bflag', True))
+        f[('stb', 'p%d' % first['pid'], 'deepn', 'c')] = bool(first.get('bflag', True))
+        f[('stb', 'p%d' % first['pid'], 'lv')] = bool(first.get('bflag', True))
     f[('shared', 'n')] = True
     f[('shared', 'hidden')] = False
     f[('out', 'sum')] = spec['emit_sum']
@@ -315,6 +320,7 @@ def expected_row(spec, snap, fl):
         out['stb'].setdefault('p%d' % p['pid'], {})
     if spec.get('late'):
         out['stb']['p%d' % spec['procs'][0]['pid']].setdefault('g', {})
+        out['stb']['p%d' % spec['procs'][0]['pid']].setdefault('deepn', {})
     for path, v in flat(snap).items():
         if not path:
             continue
